@@ -271,3 +271,26 @@ def savi_sweeps(job):
     out["documented_perms"] = documented
     out["policy"] = _canon_policy(problem, solver.policy)
     return out
+
+
+# ----------------------------------------------------------------------------- C17
+@handler("build_matrices")
+def build_matrices(job):
+    _quiet()
+    import re
+    import jax
+    import numpy as np
+    if job.get("x64", True):
+        jax.config.update("jax_enable_x64", True)
+    problem = make_problem(job["problem"])
+    try:
+        if "tol" in job:
+            P, R = problem.build_transition_and_reward_matrices(normalization_tolerance=job["tol"])
+        else:
+            P, R = problem.build_transition_and_reward_matrices()
+    except ValueError as e:
+        m = re.search(r"state (\d+), action (\d+)", str(e))
+        return {"error_kind": "ValueError", "message": str(e)[:300], "state": int(m.group(1)) if m else None, "action": int(m.group(2)) if m else None}
+    P = np.asarray(P, dtype=np.float64)
+    R = np.asarray(R, dtype=np.float64)
+    return {"P": [[_fx(row) for row in Pa] for Pa in P], "R": [_fx(row) for row in R], "pshape": list(P.shape), "rshape": list(R.shape)}
